@@ -81,7 +81,7 @@ def check_table(case, part):
     m = _fix_units(make_model(case))
     n = len(m)
     try:
-        s = T.to_impl(m)
+        s = T.to_impl(m, numeric_t_ref=bool(case.get("numeric_t_ref")))
     except Exception as e:
         part.violation(case, f"building the table raised {type(e).__name__}: {e}")
         return
@@ -180,6 +180,13 @@ def check_table(case, part):
     d = T.diff(T.from_impl(back), m.select(rev))
     if d:
         part.violation(case, "pack(names=reversed) -> unpack: " + d)
+        return
+    # default units of pack() are the sampler's internal ones (day, rad), whatever was packed before in this process
+    fresh = T.to_impl(m)
+    _, dunits = fresh.pack()
+    if dunits["P"] != u.day or dunits["omega"] != u.rad or dunits["M0"] != u.rad or dunits["e"] != u.one:
+        part.violation(case, "default pack() does not use the internal units (day, rad) after an earlier pack(units=...) call in this process",
+                       expected="P: d, omega/M0: rad", observed={k: str(v) for k, v in dunits.items()})
         return
     packed, units = s.pack()
     if list(units.keys()) != ["P", "e", "omega", "M0", "s"]:
@@ -407,7 +414,8 @@ def build_cases(quick, seed):
                             for (tr, pt, no) in (metas if n <= 2 else metas[:1] + metas[4:5]):
                                 cases.append(dict(kind="table", K=list(Ks), om0=om0, aunit=aunit, kunit=kunit, punit=punit,
                                                   t_ref=tr, poly_trend=pt, n_offsets=no, jit=jit,
-                                                  colorder="rot" if (om0 + len(Ks) + (aunit == "deg")) % 2 else "canon"))
+                                                  colorder="rot" if (om0 + len(Ks) + (aunit == "deg")) % 2 else "canon",
+                                                  numeric_t_ref=bool(tr and (om0 + len(Ks)) % 3 == 0)))
     chains = []
     depth = 3 if quick else 4
     base = [dict(K=[-3.0, 2.0, -0.5], om0=1, aunit="deg", kunit="m / s", punit="yr", t_ref=True, poly_trend=2, n_offsets=1, jit=jit),
